@@ -74,6 +74,10 @@ func toCodeSignature(t *types.Signature) *jen.Statement {
 	jenParams := []jen.Code{}
 	params := t.Params()
 	for i := 0; i < params.Len(); i++ {
+		if slice, ok := params.At(i).Type().(*types.Slice); ok && t.Variadic() && i == params.Len()-1 {
+			jenParams = append(jenParams, jen.Op("...").Add(toCode(slice.Elem())))
+			continue
+		}
 		jenParams = append(jenParams, toCode(params.At(i).Type()))
 	}
 
